@@ -116,6 +116,13 @@ CHECKS.update({
    note=TB_B),
 })
 
+
+CHECKS.update({
+ "C25": dict(level="proof", engine="A", technique="Coq theorem: the memoised factorial returns n! for every call history (induction over call lists); tables read from the live integer functions compared by Coq vm_compute with definitional references on exhaustive ranges; exact-or-one-ulp instances decided in Z",
+   text="libintmath.ifac's growing cache (with its size limit) is modelled as a state machine and proved to return n! after any sequence of calls. ifac2, ifib, stirling1/2, binomial, bell, eulernum, bernfrac, moebius, isprime, list_primes, primepi are read from the live code (after scrambled warm-up calls) and compared inside Coq with reference definitions (recurrences, trial division) exhaustively on stated ranges; strong pseudoprimes carry Coq-checked factor certificates; factorial/fac2/fib/binomial/stirling/rf at arguments exceeding the precision are decided exact-when-representable and within one ulp otherwise.",
+   note=TB_Z + " Ranges are bounded and stated in the evidence; Miller-Rabin determinism below 3.4e14 is a literature fact, not proved; bernoulli numerics, mangoldt, cyclotomic, bernpoly/eulerpoly not decided."),
+})
+
 NOT_APPLICABLE = {
 }
 
